@@ -2,7 +2,7 @@
 //
 // Bounded-exhaustive model checking on the real engines: for every (min, max|absent, limit) in
 // {0,1,2,3,65535,65536}^3 that is a valid declaration x capacity-from-max x {Go allocator, four custom
-// experimental.MemoryAllocator behaviours} x {local, imported memory} x {interpreter, compiler}, an explicit-state BFS
+// experimental.MemoryAllocator behaviours} x {local, imported memory} x {unshared, shared} x {interpreter, compiler}, an explicit-state BFS
 // over grow histories (guest memory.grow — plain and fused with loads in one function —, host Memory.Grow;
 // delta alphabet {0,1,2,bound-cur,bound-cur+1,max-cur,max-cur+1,65535,65536,2^31,2^32-1}; depth <= 3)
 // is executed. In EVERY state the implementation is compared with an integer reference model:
@@ -482,6 +482,6 @@ func main() {
 		"the custom allocators are conforming (Reallocate preserves contents and zero-fills what it hands out): exact (moves and poisons small buffers on every Reallocate), reserve (cap=max, poisoned spare region), recycled (dirty slabs of closed instances), refusing (nil beyond min+1 pages)",
 		"multi-GiB memories: contents are compared at all bytes ever written plus zero probes around selected page boundaries (0-4, 32767-32769, 65534-65536, previous size) and the last 16 bytes, not densely; successful whole-memory Write/WriteString is exercised on memories <= 16 pages only",
 		"Go-allocator reallocation to >= 65535 pages (4 GiB of page faults each) is bounded per tier as stated in bounds.huge_realloc_rule; those histories are covered with capacity-from-max and with the custom allocator in every tier",
-		"shared memories are outside this check (C04/C10); NaN payloads of ReadFloat* are compared as bit patterns of non-NaN values only",
+		"shared memories are explored single-threaded (same histories and comparisons, plus buffer-address stability and wait32/notify bounds); concurrent agents are outside this check (C04/C10); NaN payloads of ReadFloat* are compared as bit patterns of non-NaN values only",
 	})
 }
